@@ -6,6 +6,8 @@ use serde_json::{json, Value};
 
 pub mod c01;
 pub mod c02;
+pub mod c03;
+pub mod c04;
 pub mod c05;
 pub mod c07;
 pub mod c08;
@@ -16,7 +18,7 @@ pub mod c16;
 pub mod c17;
 
 pub fn all() -> Vec<PropertyDef> {
-    vec![c01::def(), c02::def(), c05::def(), c07::def(), c08::def(), c09::def(), c10::def(), c13::def(), c16::def(), c17::def()]
+    vec![c01::def(), c02::def(), c03::def(), c04::def(), c05::def(), c07::def(), c08::def(), c09::def(), c10::def(), c13::def(), c16::def(), c17::def()]
 }
 
 // ---- shared: simulation parameters <-> JSON ---------------------------------------------------
